@@ -66,12 +66,12 @@ func newEffAnalysis(p *core.Prog) *effAnalysis {
 type extKind int
 
 const (
-	extUnknown extKind = iota
-	extPure            // no writes to argument memory, no communication (may allocate, may panic)
-	extOutput          // writes only to process output (log, fmt.Print)
-	extWritesArg0      // writes through its first argument only
-	extSyncCommutative // WaitGroup.Add/Done: commutative counter updates
-	extWait            // blocks (WaitGroup.Wait, Mutex.Lock …)
+	extUnknown         extKind = iota
+	extPure                    // no writes to argument memory, no communication (may allocate, may panic)
+	extOutput                  // writes only to process output (log, fmt.Print)
+	extWritesArg0              // writes through its first argument only
+	extSyncCommutative         // WaitGroup.Add/Done: commutative counter updates
+	extWait                    // blocks (WaitGroup.Wait, Mutex.Lock …)
 )
 
 func classifyExternal(id string, pkg string) extKind {
